@@ -297,11 +297,14 @@ structure EngTotals where
   rsz : Nat := 0        -- `resize-*` lines computed by the model
   relFailed : Nat := 0  -- of these: compared with the model's state for a failed release transaction
   adopted : Nat := 0    -- `resize-*` lines after which the snapshot was adopted (failed Open)
+  diffPlain : Nat := 0  -- plain opens on a state where the first and the precise absorb rule differ
+  diffResize : Nat := 0 -- the same for `resize-*` lines
 
 def EngTotals.add (t : EngTotals) (st : EngSt) (endOfProgram : Bool) : EngTotals :=
   { checked := t.checked + st.checked, mism := t.mism + st.mismatches.length,
     progs := t.progs + (if endOfProgram then 1 else 0), rsz := t.rsz + st.resizesReplayed,
-    relFailed := t.relFailed + st.resizesRelFailed, adopted := t.adopted + st.resizesAdopted }
+    relFailed := t.relFailed + st.resizesRelFailed, adopted := t.adopted + st.resizesAdopted,
+    diffPlain := t.diffPlain + st.absorbDiffPlain, diffResize := t.diffResize + st.absorbDiffResize }
 
 /-- engine mode: programs are delimited by `program …` / `end` lines -/
 partial def engLoop (h : IO.FS.Stream) (st : EngSt) (prog : String) (t : EngTotals) : IO EngTotals := do
@@ -353,7 +356,7 @@ def main (args : List String) : IO UInt32 := do
     return (if mism == 0 then 0 else 1)
   | "engine" =>
     let t ← engLoop stdin {} "" {}
-    IO.println s!"DONE checked={t.checked} mismatches={t.mism} bad=0 programs={t.progs} resizes_replayed={t.rsz} resizes_release_failed={t.relFailed} resizes_adopted={t.adopted}"
+    IO.println s!"DONE checked={t.checked} mismatches={t.mism} bad=0 programs={t.progs} resizes_replayed={t.rsz} resizes_release_failed={t.relFailed} resizes_adopted={t.adopted} absorb_rules_differ_open={t.diffPlain} absorb_rules_differ_resize={t.diffResize}"
     return (if t.mism == 0 then 0 else 1)
   | _ =>
     IO.eprintln s!"unknown mode {mode}"
